@@ -273,6 +273,7 @@ type incarnation struct {
 	trace          []string
 	trigger        string // log key of the input the state machine is processing (set by smWrap)
 	unlogged       []effect
+	staleTrig      bool // current trigger is a timeout whose actions carry no WriteWAL
 }
 
 var dbg = os.Getenv("C13_DEBUG") != ""
@@ -506,6 +507,11 @@ func (inc *incarnation) visible(kind, key string) effect {
 					}
 				}
 			}
+			if inc.staleTrig {
+				// a timeout for which the state machine emitted no log record (it considered it
+				// stale) but whose handling still produced a visible action
+				e.Kind = "unlogged-stale-timeout-triggers:" + e.Kind
+			}
 			inc.unlogged = append(inc.unlogged, e)
 		}
 	}
@@ -573,6 +579,7 @@ func (s smWrap) note(acts []starknet.Action) (commit bool) {
 func (s smWrap) setTrigger(key string) {
 	s.inc.c.mu.Lock()
 	s.inc.trigger = key
+	s.inc.staleTrig = false
 	s.inc.c.mu.Unlock()
 }
 
@@ -581,6 +588,7 @@ func (s smWrap) ProcessStart(r types.Round) []starknet.Action {
 	inc.c.mu.Lock()
 	inc.replaying = false
 	inc.trigger = fmt.Sprintf("start h=%d", inc.inner.Height())
+	inc.staleTrig = false
 	inc.c.mu.Unlock()
 	acts := inc.inner.ProcessStart(r)
 	s.note(acts)
@@ -594,6 +602,16 @@ func (s smWrap) ProcessTimeout(tm types.Timeout) []starknet.Action {
 	s.note(acts)
 	inc.c.mu.Lock()
 	inc.consumed++
+	logged := false
+	for _, a := range acts {
+		if _, ok := a.(*starknet.WriteWAL); ok {
+			logged = true
+		}
+	}
+	inc.staleTrig = !logged
+	if len(acts) > 0 && !logged {
+		inc.c.cnt["stale_timeouts_that_still_produced_actions"]++
+	}
 	if len(acts) > 0 {
 		inc.c.cnt["timeouts_effective"]++
 	} else {
@@ -694,20 +712,20 @@ func (a app) Valid(v V) bool {
 // ------------------------------------------------------------------ a case run (sequence of incarnations)
 
 type caseRun struct {
-	cfg    *config
-	mu     sync.Mutex
-	fresh  uint64
-	ownProp map[hr]H
+	cfg      *config
+	mu       sync.Mutex
+	fresh    uint64
+	ownProp  map[hr]H
 	resolved map[int]input
-	model   walModel
-	votes   []voteRec
-	commits []commitRec
-	incs    []*incarnation
-	cnt     map[string]int
-	root    string
-	futPC   map[string]map[int]bool // (h,r,id) -> senders of non-nil precommits delivered while the height was in the future
-	dropped int
-	tmp     []string
+	model    walModel
+	votes    []voteRec
+	commits  []commitRec
+	incs     []*incarnation
+	cnt      map[string]int
+	root     string
+	futPC    map[string]map[int]bool // (h,r,id) -> senders of non-nil precommits delivered while the height was in the future
+	dropped  int
+	tmp      []string
 	// expectAt[i] = what the log must hold when incarnation i+1 opens it
 	expectAt [][]walItem
 }
